@@ -106,6 +106,16 @@ def gen_cases(tier, seed):
                               total_timesteps=int(rng.choice([0, 1, 23, 37])),
                               seed=int(rng.integers(1 << 20)),
                               cost=COST.get(algo, 2)))
+            # round 9: every tabular learner sees an episode ended by truncation
+            # alone and one ended by termination well inside the budget
+            head = [[int(rng.integers(1, 5)), "U"], [int(rng.integers(1, 5)), "T"]]
+            if rng.random() < 0.5:
+                head.reverse()
+            cases.append(dict(kind="tab", algo=algo,
+                              script=head + make_script(rng, 3),
+                              total_timesteps=int(rng.choice([23, 37])),
+                              seed=int(rng.integers(1 << 20)),
+                              cost=COST.get(algo, 2)))
         for algo in ("reinforce", "actor_critic"):
             for tae in (False, True):
                 cases.append(dict(kind="episodic", algo=algo, script=make_script(rng),
